@@ -64,6 +64,7 @@ type Comp struct {
 	ValType types.Type // Go type of the stored leaf (for typing facts), may be nil
 	Leaf    string
 	Scalar  bool // ghost scalar
+	IfaceIdx bool // first index is an interface value
 	Repo    bool // field of a struct type defined in the repo module
 }
 
@@ -654,6 +655,51 @@ func (e *Enc) ghostComp(g *GhostVar, pkg *types.Package) *Comp {
 	c := e.comp(name, s, nil, true)
 	c.Scalar = true
 	return c
+}
+
+// ghostFnComp: a ghost function is a heap component indexed by its parameters.
+func (e *Enc) ghostFnComp(g *SpecFunc, c *SpecCtx) (*Comp, []types.Type, types.Type) {
+	name := "GF " + g.Name
+	tc := c
+	if g.PkgPath != "" && e.P.ByPath[g.PkgPath] != nil {
+		tc = &SpecCtx{e: e, pkg: e.P.ByPath[g.PkgPath].Types}
+	} else if g.PkgPath == "" {
+		tc = &SpecCtx{e: e}
+	}
+	var pts []types.Type
+	for _, p := range g.Params {
+		pts = append(pts, tc.resolveType(p.Type))
+	}
+	var rt types.Type
+	if g.Result == "bool" {
+		rt = types.Typ[types.Bool]
+	} else {
+		rt = tc.resolveType(g.Result)
+	}
+	if cp, ok := e.comps[name]; ok {
+		return cp, pts, rt
+	}
+	sortOf := func(t types.Type) Sort {
+		if t == mathInt {
+			return SInt
+		}
+		s, ok := e.scalarSort(t)
+		if !ok {
+			e.unsup("ghost function %s: composite type %s", g.Name, t)
+		}
+		return s
+	}
+	srt := sortOf(rt)
+	for i := len(pts) - 1; i >= 0; i-- {
+		srt = arrSort(sortOf(pts[i]), srt)
+	}
+	cp := e.comp(name, srt, nil, false)
+	if len(pts) == 0 {
+		cp.Scalar = true
+	} else if _, isIface := pts[0].Underlying().(*types.Interface); isIface {
+		cp.IfaceIdx = true
+	}
+	return cp, pts, rt
 }
 
 func (e *Enc) subRef(S types.Type, i int, ref Term) Term {
